@@ -69,7 +69,9 @@ def load_build(repo):
             tree = ast.parse(fh.read())
     except Exception as e:
         raise TranslateError(f"srd144: cannot parse {BUILD}: {e}")
-    want = {"element_names": None, "longest_lived_isotope_for_unstable_elements": None, "aliases": None, "newnames": None}
+    want = {"element_names": None, "longest_lived_isotope_for_unstable_elements": None, "aliases": None, "newnames": None,
+            # the dummy rows the script seeds its seven arrays with
+            "Z": None, "E": None, "name": None, "_EE": None, "EA": None, "A": None, "masses": None}
     for node in tree.body:
         if isinstance(node, ast.Assign) and len(node.targets) == 1 and isinstance(node.targets[0], ast.Name) \
                 and node.targets[0].id in want:
@@ -106,6 +108,19 @@ def load_build(repo):
             _ascii(v, d)
     for k in ll:
         _ascii(k, "longest-lived key")
+    dummy = {k: want[k] for k in ("Z", "E", "name", "_EE", "EA", "A", "masses")}
+    for k, v in dummy.items():
+        if not isinstance(v, list) or not v:
+            raise TranslateError(f"{BUILD}: seed of array {k} is not a non-empty list literal")
+    if not (len(dummy["Z"]) == len(dummy["E"]) == len(dummy["name"]) and
+            len(dummy["_EE"]) == len(dummy["EA"]) == len(dummy["A"]) == len(dummy["masses"])):
+        raise TranslateError(f"{BUILD}: seeds of the arrays differ in length")
+    for v in dummy["Z"] + dummy["A"]:
+        if not isinstance(v, int) or isinstance(v, bool):
+            raise TranslateError(f"{BUILD}: non-integer seed {v!r}")
+    for v in dummy["E"] + dummy["name"] + dummy["_EE"] + dummy["EA"] + dummy["masses"]:
+        _ascii(v, "array seed")
+    load_build.dummy = dummy
     return names, ll, want["aliases"], want["newnames"]
 
 
@@ -135,5 +150,11 @@ def generate(repo):
                + clist(aliases.items(), lambda kv: f"({cstr(kv[0])}, {cstr(kv[1])})") + ".")
     out.append("Definition srd_newnames : list (string * string) := "
                + clist(newnames.items(), lambda kv: f"({cstr(kv[0])}, {cstr(kv[1])})") + ".")
+    dm = load_build.dummy
+    out.append("(* the dummy rows build_periodic_table.py seeds the arrays with: element level (Z, E, name); species level (_EE, EA, A, mass) *)")
+    out.append("Definition srd_dummy_elems : list (Z * string * string) := "
+               + clist(zip(dm["Z"], dm["E"], dm["name"]), lambda r: f"({cz(r[0])}, {cstr(r[1])}, {cstr(r[2])})") + ".")
+    out.append("Definition srd_dummy_species : list (string * string * Z * string) := "
+               + clist(zip(dm["_EE"], dm["EA"], dm["A"], dm["masses"]), lambda r: f"({cstr(r[0])}, {cstr(r[1])}, {cz(r[2])}, {cstr(r[3])})") + ".")
     coqrun.write_if_changed(os.path.join(coqrun.COQ, "Gen", "Srd144.v"), "\n".join(out) + "\n")
-    return {"elements": elems, "names": names, "longest_lived": ll, "aliases": aliases, "newnames": newnames}
+    return {"elements": elems, "names": names, "longest_lived": ll, "aliases": aliases, "newnames": newnames, "dummy": dm}
